@@ -103,7 +103,12 @@ def _from_operand(fn, b, i, o, path, seen, depth):
         c = fn.canon(pl)
         cp = norm_path(c['p'])
         if 'deref' in cp or any(x[0] == '?' for x in cp if isinstance(x, tuple)):
-            return [('rv', b, i, {'k': 'use', 'op': o})] if not path else [('unknown', 'projection of a load through a reference')]
+            if not path:
+                return [('rv', b, i, {'k': 'use', 'op': o})]
+            if all(isinstance(x, tuple) and x[0] in ('f', 'down') for x in path):
+                ext = [({'f': x[1], 'n': str(x[1]), 'ty': ''} if x[0] == 'f' else {'down': x[1], 'n': x[1]}) for x in path]
+                return [('rv', b, i, {'k': 'use', 'op': {'k': 'copy', 'pl': {'l': pl['l'], 'p': list(pl['p']) + ext, 'ty': ''}}})]
+            return [('unknown', 'projection of a load through a reference')]
         return trace(fn, c['l'], cp + path, seen, depth + 1, at=(b, i))
     if any(isinstance(x, tuple) and x[0] == '?' for x in np_):
         return [('rv', b, i, {'k': 'use', 'op': o})] if not path else [('unknown', 'projection of an indexed load')]
